@@ -767,6 +767,86 @@ fn main() {
                 }
             }
         }
+        "grid" => {
+            // a small grid of squares built through the public calls (unobserved prefix), with
+            // data on its cells, then a history dominated by 2-unsews / 2-sews (C04)
+            let mut rng = Rng::new(seed);
+            for i in 0..ncases {
+                let mask = [15u32, 11, 3, 1, 0, 15][rng.below(6) as usize];
+                let nx = 1 + rng.below(3) as u32;
+                let ny = 1 + rng.below(3) as u32;
+                let n0 = 4 * nx * ny + rng.below(3) as u32;
+                let mut ops: Vec<Op> = vec![Op::Obs(false)];
+                let dart = |ix: u32, iy: u32, k: u32| 1 + 4 * (ix + nx * iy) + k;
+                for iy in 0..ny {
+                    for ix in 0..nx {
+                        for k in 0..4 {
+                            ops.push(Op::Force(None, Call::Link1(dart(ix, iy, k), dart(ix, iy, (k + 1) % 4))));
+                        }
+                        let (x, y) = (f64::from(ix), f64::from(iy));
+                        let jit = |r: &mut Rng| if r.chance(1, 6) { 0.25 } else { 0.0 };
+                        ops.push(Op::Force(None, Call::WriteVertex(dart(ix, iy, 0), x + jit(&mut rng), y)));
+                        ops.push(Op::Force(None, Call::WriteVertex(dart(ix, iy, 1), x + 1.0, y + jit(&mut rng))));
+                        ops.push(Op::Force(None, Call::WriteVertex(dart(ix, iy, 2), x + 1.0, y + 1.0)));
+                        ops.push(Op::Force(None, Call::WriteVertex(dart(ix, iy, 3), x, y + 1.0)));
+                    }
+                }
+                for iy in 0..ny {
+                    for ix in 0..nx {
+                        if ix + 1 < nx {
+                            ops.push(Op::Force(None, Call::Sew2(dart(ix, iy, 1), dart(ix + 1, iy, 3))));
+                        }
+                        if iy + 1 < ny {
+                            ops.push(Op::Force(None, Call::Sew2(dart(ix, iy, 2), dart(ix, iy + 1, 0))));
+                        }
+                    }
+                }
+                ops.push(Op::Obs(true));
+                let nops = 2 + rng.below(maxops as u64) as usize;
+                let mut r2 = Rng::new(rng.next());
+                let mut it = ops.into_iter();
+                let mut extra = 0usize;
+                run_case(
+                    &format!("{tag}{i}"),
+                    mask,
+                    n0,
+                    &mut |m, _| {
+                        if let Some(o) = it.next() {
+                            return Some(o);
+                        }
+                        if extra >= nops {
+                            return None;
+                        }
+                        extra += 1;
+                        let v = view(m);
+                        let t = |_: u32| true;
+                        Some(match r2.below(10) {
+                            0..=2 => Op::Force(None, Call::Unsew2(gen_dart(&mut r2, &v, |d| v.b[d as usize][2] != 0, false))),
+                            3..=5 => {
+                                let l = gen_dart(&mut r2, &v, |d| v.b[d as usize][2] == 0, false);
+                                let r = gen_dart(&mut r2, &v, |d| v.b[d as usize][2] == 0 && d != l, false);
+                                Op::Force(None, Call::Sew2(l, r))
+                            }
+                            6 if mask != 0 => {
+                                let ks: Vec<u32> = (0..N_KINDS).filter(|k| mask & (1 << k) != 0).collect();
+                                let k = *r2.pick(&ks);
+                                let d = gen_dart(&mut r2, &v, t, false);
+                                // write at the cell identifier the kind is bound to
+                                let id = match k {
+                                    0 | 3 => m.vertex_id(d),
+                                    1 => m.edge_id(d),
+                                    _ => m.face_id(d),
+                                };
+                                Op::Force(None, Call::WriteAttr(k, id, 1 + r2.below(60) as u32))
+                            }
+                            7 => Op::Force(None, Call::Unsew1(gen_dart(&mut r2, &v, |d| v.b[d as usize][1] != 0, false))),
+                            _ => gen_op(&mut r2, m, mask, 0, 0),
+                        })
+                    },
+                    &mut out,
+                );
+            }
+        }
         "exhq" => {
             let n = maxn as u32;
             for (id, (b1, b2, rem)) in all_maps(n).iter().enumerate() {
